@@ -86,7 +86,7 @@ pub fn plan(id: &str) -> Option<Plan> {
             id: "C04",
             level: "exploration",
             profiles: vec![MKT, MKT_F, ADM],
-            quick_runs: 1500,
+            quick_runs: 2100,
             thorough_runs: 30_000,
             rule: "seeded runs; one evaluation = one accepted or health-rejected borrow/withdraw (main timeline or boundary fork) judged against the independent rational risk engine; distinct = ix kind x verdict x #positions x e-mode x zeroed-collateral x isolated x fork",
         },
